@@ -300,6 +300,135 @@ class BTreeV:
             self.root = newroot
             return None
 
+    # ---- removal: alloc::collections::btree::remove (remove_leaf_kv / remove_internal_kv) and the balancing steps of
+    # btree::node / btree::fix (choose_parent_kv prefers the left sibling; merge when left+1+right <= CAPACITY, else steal)
+    MIN_LEN = 5
+
+    def _path_to(self, it, kloc):
+        """[(node, idx)] from the root to the node holding the key (last idx = kv index), or None"""
+        path = []
+        node = self.root
+        while node is not None:
+            r, i = self.search_node(it, node, kloc)
+            if r == 'found':
+                path.append((node, i))
+                return path
+            if node.edges is None:
+                return None
+            path.append((node, i))
+            node = node.edges[i]
+        return None
+
+    @staticmethod
+    def _merge(parent, kv):
+        left, right = parent.edges[kv], parent.edges[kv + 1]
+        left.keys += [parent.keys[kv]] + right.keys
+        left.vals += [parent.vals[kv]] + right.vals
+        if left.edges is not None:
+            left.edges += right.edges
+        del parent.keys[kv], parent.vals[kv], parent.edges[kv + 1]
+
+    @staticmethod
+    def _steal_left(parent, kv, count):
+        left, right = parent.edges[kv], parent.edges[kv + 1]
+        nl = len(left.keys) - count
+        right.keys = left.keys[nl + 1:] + [parent.keys[kv]] + right.keys
+        right.vals = left.vals[nl + 1:] + [parent.vals[kv]] + right.vals
+        parent.keys[kv], parent.vals[kv] = left.keys[nl], left.vals[nl]
+        left.keys, left.vals = left.keys[:nl], left.vals[:nl]
+        if left.edges is not None:
+            right.edges = left.edges[nl + 1:] + right.edges
+            left.edges = left.edges[:nl + 1]
+
+    @staticmethod
+    def _steal_right(parent, kv, count):
+        left, right = parent.edges[kv], parent.edges[kv + 1]
+        left.keys += [parent.keys[kv]] + right.keys[:count - 1]
+        left.vals += [parent.vals[kv]] + right.vals[:count - 1]
+        parent.keys[kv], parent.vals[kv] = right.keys[count - 1], right.vals[count - 1]
+        right.keys, right.vals = right.keys[count:], right.vals[count:]
+        if left.edges is not None:
+            left.edges += right.edges[:count]
+            right.edges = right.edges[count:]
+
+    def _remove_leaf_kv(self, path):
+        """path: [(node, edge idx)...,(leaf, kv idx)]"""
+        leaf, i = path[-1]
+        k, v = leaf.keys.pop(i), leaf.vals.pop(i)
+        self.length -= 1
+        anc = path[:-1]
+        if len(leaf.keys) < self.MIN_LEN and anc:
+            parent, pidx = anc[-1]
+            if pidx > 0:
+                if len(parent.edges[pidx - 1].keys) + 1 + len(leaf.keys) <= self.CAP:
+                    self._merge(parent, pidx - 1)
+                else:
+                    self._steal_left(parent, pidx - 1, 1)
+            else:
+                if len(leaf.keys) + 1 + len(parent.edges[pidx + 1].keys) <= self.CAP:
+                    self._merge(parent, pidx)
+                else:
+                    self._steal_right(parent, pidx, 1)
+            # fix_node_and_affected_ancestors, starting at the leaf's parent
+            level = len(anc) - 1
+            while level >= 0:
+                node = anc[level][0]
+                n = len(node.keys)
+                if n >= self.MIN_LEN:
+                    break
+                if level == 0:
+                    if n == 0:
+                        self.root = node.edges[0]      # pop_internal_level
+                    break
+                parent, pidx = anc[level - 1]
+                if pidx > 0:
+                    if len(parent.edges[pidx - 1].keys) + 1 + n <= self.CAP:
+                        self._merge(parent, pidx - 1)
+                        level -= 1
+                        continue
+                    self._steal_left(parent, pidx - 1, self.MIN_LEN - n)
+                else:
+                    if n + 1 + len(parent.edges[pidx + 1].keys) <= self.CAP:
+                        self._merge(parent, pidx)
+                        level -= 1
+                        continue
+                    self._steal_right(parent, pidx, self.MIN_LEN - n)
+                break
+        elif not anc and not leaf.keys:
+            self.root = None
+        return k, v
+
+    def remove_path(self, path):
+        node, i = path[-1]
+        if node.edges is None:
+            return self._remove_leaf_kv(path)
+        # internal: remove the in-order predecessor from its leaf, then put it in place of the kv to remove
+        order = self.locs()
+        at = next(j for j, (ks, ii, vs) in enumerate(order) if ks is node.keys and ii == i)
+        p2 = list(path[:-1]) + [(node, i)]
+        cur = node.edges[i]
+        while cur.edges is not None:
+            p2.append((cur, len(cur.keys)))
+            cur = cur.edges[len(cur.keys)]
+        p2.append((cur, len(cur.keys) - 1))
+        pk, pv = self._remove_leaf_kv(p2)
+        ks, ii, vs = self.locs()[at - 1]      # the original kv is the in-order successor of the hole
+        old = (ks[ii], vs[ii])
+        ks[ii], vs[ii] = pk, pv
+        return old
+
+    def pop_end(self, last):
+        if self.root is None:
+            return None
+        path = []
+        node = self.root
+        while node.edges is not None:
+            j = len(node.keys) if last else 0
+            path.append((node, j))
+            node = node.edges[j]
+        path.append((node, len(node.keys) - 1 if last else 0))
+        return self._remove_leaf_kv(path)
+
     def locs(self):
         """in-order (keys list, index, vals list) locations"""
         out = []
@@ -462,6 +591,11 @@ class Models:
                 a, b = deref(args[0]), deref(args[1])
                 if isinstance(a, int) or is_sym(a) or is_sym(b):
                     return self.int_cmp(it, a, b, name == 'partial_cmp')
+                if type(a) in (str, StringV) and type(b) in (str, StringV):
+                    # str order = byte-wise lexicographic order of the UTF-8 encodings
+                    x, y = sv(a).encode('utf-8'), sv(b).encode('utf-8')
+                    r = ordering(-1 if x < y else (0 if x == y else 1))
+                    return some(r) if name == 'partial_cmp' else r
                 okk, r = self.call_mir(it, name, args)
                 if okk:
                     return r
@@ -509,6 +643,13 @@ class Models:
                     return Enum('ControlFlow', 'Break', 1, [none()])
             if tb == 'FromResidual' and name == 'from_residual':
                 v = args[0]
+                if type(v) is not Enum:
+                    # `const Option::<Infallible>::None` (the residual of `?` on an Option is a constant)
+                    v = it.concretize(v) if type(v) is Choice else v
+                    if type(v) is not Enum:
+                        if (ci.qbase or '').lstrip('&').startswith('Option') or 'Option' in (ci.qself or '')[:40]:
+                            return none()
+                        raise Inconclusive('from_residual of %r' % (v,))
                 if v.ty == 'Result':
                     e = v.fields[0]
                     return err(e)
@@ -651,6 +792,13 @@ class Models:
 
     def std_into_iter(self, it, v):
         t = type(v)
+        if t is Choice:
+            v = it.concretize(v)
+            t = type(v)
+        if t is Opaque and hasattr(v.data, 'next'):
+            return v          # an iterator is its own IntoIterator
+        if t is Enum and v.ty == 'Option':
+            return Opaque('OptionIntoIter', PyIter([v.fields[0]] if v.variant == 'Some' else []))
         if t is VecV or t is Arr:
             return Opaque('VecIntoIter', PyIter(list(v.fields)))
         if t is Ref:
@@ -1003,6 +1151,63 @@ def _(it, ci, a, d):
     return False
 
 
+def generic_cmp(it, a, b):
+    """Ord::cmp of two element references through the normal dispatch (models, overrides, MIR impls) -> -1/0/1"""
+    from interp import parse_callee
+    ci = parse_callee('<T as Ord>::cmp')
+    r = it.models.dispatch(it, ci, [a, b], None)
+    r = it.concretize(r)
+    return r.idx
+
+
+def _binary_search_by(it, v, f):
+    """core::slice::binary_search_by as in the standard library (1.8x and later): fixed iteration count, no early exit.
+    The result on a slice that is not sorted is unspecified by the documentation but determined by this algorithm;
+    counterexamples are replayed on the real build before being reported."""
+    n = len(v.fields)
+    size = n
+    if size == 0:
+        return err(0)
+    base = 0
+    while size > 1:
+        half = size // 2
+        mid = base + half
+        c = f(mid)
+        base = base if c > 0 else mid
+        size -= half
+    c = f(base)
+    if c == 0:
+        return ok(base)
+    return err(base + (1 if c < 0 else 0))
+
+
+@model('slice::binary_search', 'Vec::binary_search')
+def _(it, ci, a, d):
+    v = deref(a[0])
+    it.models.called['slice::binary_search(std algorithm)'] = it.models.called.get('slice::binary_search(std algorithm)', 0) + 1
+    return _binary_search_by(it, v, lambda i: generic_cmp(it, Ref(v.fields, i), a[1]))
+
+
+@model('slice::binary_search_by', 'Vec::binary_search_by')
+def _(it, ci, a, d):
+    v = deref(a[0])
+
+    def f(i):
+        r = it.concretize(it.call_value(deref(a[1]), [Ref(v.fields, i)]))
+        return r.idx
+    return _binary_search_by(it, v, f)
+
+
+@model('slice::binary_search_by_key', 'Vec::binary_search_by_key')
+def _(it, ci, a, d):
+    v = deref(a[0])
+
+    def f(i):
+        k = it.call_value(deref(a[2]), [Ref(v.fields, i)])
+        return generic_cmp(it, Ref([k], 0), a[1])
+    return _binary_search_by(it, v, f)
+
+
 @model('slice::into_vec', 'slice::to_vec')
 def _(it, ci, a, d):
     v = deref(a[0])
@@ -1314,6 +1519,37 @@ def _(it, ci, a, d):
     k = a[1]
     loc = (k.lst, k.idx) if type(k) is Ref else ([k], 0)
     return bt.get(it, loc) is not None
+
+
+@model('BTreeMap::pop_last', 'BTreeMap::pop_first')
+def _(it, ci, a, d):
+    bt = deref(a[0]).data
+    r = bt.pop_end(ci.name == 'pop_last')
+    return none() if r is None else some(Tup([r[0], r[1]]))
+
+
+@model('BTreeMap::remove', 'BTreeMap::remove_entry')
+def _(it, ci, a, d):
+    bt = deref(a[0]).data
+    k = a[1]
+    loc = (k.lst, k.idx) if type(k) is Ref else ([k], 0)
+    path = bt._path_to(it, loc)
+    if path is None:
+        return none()
+    rk, rv = bt.remove_path(path)
+    return some(rv) if ci.name == 'remove' else some(Tup([rk, rv]))
+
+
+@model('BTreeMap::get_mut')
+def _(it, ci, a, d):
+    return TABLE['BTreeMap::get'](it, ci, a, d)
+
+
+@model('BTreeMap::clear')
+def _(it, ci, a, d):
+    bt = deref(a[0]).data
+    bt.root, bt.length = None, 0
+    return UNIT
 
 
 @model('BTreeMap::last_key_value', 'BTreeMap::first_key_value')
@@ -1666,6 +1902,133 @@ def _(it, ci, a, d):
     return Opaque('Flatten', FnIter(g()))
 
 
+@itermethod('flat_map')
+def _(it, ci, a, d):
+    src, f = a
+
+    def g():
+        for x in iter_drain(it, src):
+            r = it.call_value(f, [x])
+            r = it.concretize(r) if type(r) is Choice else r
+            if type(r) is Enum and r.ty == 'Option':
+                if r.variant == 'Some':
+                    yield r.fields[0]
+                continue
+            ri = r if (type(r) is Opaque and hasattr(r.data, 'next')) else it.models.std_into_iter(it, r)
+            for y in iter_drain(it, ri):
+                yield y
+    return Opaque('FlatMap', FnIter(g()))
+
+
+@itermethod('reduce')
+def _(it, ci, a, d):
+    src, f = a
+    acc = iter_next(it, src)
+    if acc is None:
+        return none()
+    for x in iter_drain(it, src):
+        acc = it.call_value(f, [acc, x])
+    return some(acc)
+
+
+@itermethod('map_while')
+def _(it, ci, a, d):
+    src, f = a
+
+    def g():
+        for x in iter_drain(it, src):
+            r = it.concretize(it.call_value(f, [x]))
+            if r.variant != 'Some':
+                return
+            yield r.fields[0]
+    return Opaque('MapWhile', FnIter(g()))
+
+
+@itermethod('inspect')
+def _(it, ci, a, d):
+    src, f = a
+
+    def g():
+        for x in iter_drain(it, src):
+            it.call_value(f, [Ref([x], 0)])
+            yield x
+    return Opaque('Inspect', FnIter(g()))
+
+
+@itermethod('rposition')
+def _(it, ci, a, d):
+    src, f = a
+    items = list(iter_drain(it, src))
+    for i in range(len(items) - 1, -1, -1):
+        if truthy(it, it.call_value(f, [items[i]])):
+            return some(i)
+    return none()
+
+
+@itermethod('unzip')
+def _(it, ci, a, d):
+    xs, ys = [], []
+    for x in iter_drain(it, a[0]):
+        xs.append(x.fields[0])
+        ys.append(x.fields[1])
+    return Tup([VecV(xs), VecV(ys)])
+
+
+@itermethod('partition')
+def _(it, ci, a, d):
+    src, f = a
+    xs, ys = [], []
+    for x in iter_drain(it, src):
+        (xs if truthy(it, it.call_value(f, [Ref([x], 0)])) else ys).append(x)
+    return Tup([VecV(xs), VecV(ys)])
+
+
+@itermethod('try_fold')
+def _(it, ci, a, d):
+    src, init, f = a
+    acc = init
+    for x in iter_drain(it, src):
+        r = it.concretize(it.call_value(f, [acc, x]))
+        if r.variant in ('Ok', 'Some', 'Continue'):
+            acc = r.fields[0]
+        else:
+            return r
+    t = norm_type(d) if d else ''
+    if t == 'Option':
+        return some(acc)
+    if t == 'ControlFlow':
+        return Enum('ControlFlow', 'Continue', 0, [acc])
+    return ok(acc)
+
+
+@itermethod('by_ref')
+def _(it, ci, a, d):
+    return a[0]
+
+
+@itermethod('size_hint')
+def _(it, ci, a, d):
+    return Tup([0, none()])
+
+
+@model('iter::once', 'sources::once::once', 'once::once')
+def _(it, ci, a, d):
+    return Opaque('Once', PyIter([a[0]]))
+
+
+@model('iter::empty', 'sources::empty::empty', 'empty::empty')
+def _(it, ci, a, d):
+    return Opaque('Empty', PyIter([]))
+
+
+@model('iter::repeat_n', 'sources::repeat_n::repeat_n', 'repeat_n::repeat_n')
+def _(it, ci, a, d):
+    n = a[1]
+    if is_sym(n):
+        raise Inconclusive('repeat_n with symbolic count')
+    return Opaque('RepeatN', PyIter([deep_clone(a[0]) for _ in range(n)]))
+
+
 @itermethod('collect')
 def _(it, ci, a, d):
     items = list(iter_drain(it, a[0]))
@@ -1677,6 +2040,14 @@ def _(it, ci, a, d):
         tgt = norm_type(d)
     if tgt == 'Vec':
         return VecV(items)
+    if tgt in ('Option', 'Result'):
+        out = []
+        for x in items:
+            x = it.concretize(x)
+            if x.variant in ('None', 'Err'):
+                return x
+            out.append(x.fields[0])
+        return some(VecV(out)) if tgt == 'Option' else ok(VecV(out))
     if tgt == 'String':
         out = []
         for x in items:
